@@ -278,7 +278,7 @@ Theorem check_sound_lifts n (g : gate R) repl MA :
        <= 1 / 100000000 + 1 / 100000 * Cabs (cmul RNum p (mget RNum MB r c)))%R.
 Proof.
   intros Hck HMA. destruct (check_sound g repl Hck) as [_ [A0 [B0 [p [i [j H]]]]]]. cbv zeta in H.
-  destruct H as [HA0 [HB0 [_ [_ [_ [_ [_ [_ [_ [_ Hent]]]]]]]]]].
+  destruct H as [HA0 [HB0 [_ [_ [_ [_ [_ [_ [_ [_ [_ Hent]]]]]]]]]]].
   destruct (reindexed_pair_embeds n g repl A0 B0 MA HA0 HB0 HMA) as [MB [HMB [EA EB]]].
   exists MB, p. split; [exact HMB|]. intros r c Hr Hc.
   rewrite (EA r c Hr Hc), (EB r c Hr Hc).
